@@ -158,7 +158,7 @@ def hyp_part(n_examples, shard):
 
 
 def run(tier, t0):
-    part = runner.hyp_shards("vf.props.c05", "hyp_part", 8000 if tier == "quick" else 320000)
+    part = runner.hyp_shards("vf.props.c05", "hyp_part", 8000 if tier == "quick" else 200000)
     for p in runner.parallel("vf.props.c05", "ball_part", [(sh, 1 if tier == "quick" else 12, runner.SEED) for sh in range(runner.NPROC)]):
         part.merge(p)
     rule = ("accepted vector (any spelling) and a second spelling of the same metric assignment: seeded permutation of "
